@@ -12,7 +12,7 @@ PRIM_ASSUME = ["interleavings are explored at the granularity of the verif sched
 PROPS = {
     "C18": dict(
         engine="primsim", level="exploration",
-        quick=dict(runs=64000, workers=16),
+        quick=dict(runs=128000, workers=16),
         thorough=dict(budget_s=600, workers=16),
         rule="one evaluation = one seeded schedule (uniform random or PCT priorities) of 2-4 tasks running random Lock/TryLock/Unlock scripts on one "
              "tmutex.Mutex with schedule points before every atomic/channel operation; non-trivial = at least one Lock entered the contended slow path; "
@@ -70,7 +70,7 @@ PROPS["C17"] = dict(
 
 PROPS["C10"] = dict(
     engine="primsim", level="exploration",
-    quick=dict(runs=64000, workers=16, variants=["", "", "netsim:demux", ""]),
+    quick=dict(runs=128000, workers=16, variants=["", "", "netsim:demux", ""]),
     thorough=dict(budget_s=600, workers=16, variants=["", "netsim:demux"]),
     rule="one evaluation = (1) one seeded schedule of 2-4 tasks issuing ReservePort (specific and ephemeral), ReleasePort and IsPortAvailable over "
          "{IPv4,IPv6,both} x {TCP,UDP} x {wildcard,a,b} x 4 ports on one PortManager with schedule points before each lock and between check and insert, "
@@ -97,7 +97,7 @@ PROPS["C10"] = dict(
 
 PROPS["C08"] = dict(
     engine="primsim", level="exploration",
-    quick=dict(runs=64000, workers=16, variants=["", "netsim:reasm"]),
+    quick=dict(runs=128000, workers=16, variants=["", "netsim:reasm"]),
     thorough=dict(budget_s=600, workers=16, variants=["", "netsim:reasm"]),
     rule="one evaluation = one seeded schedule of 1-4 tasks calling fragmentation.Process concurrently with the 8-byte-aligned fragments of 1-3 datagrams "
          "(position-keyed content; random cuts, a second overlapping cut, duplicates, withheld fragments, random arrival order), in one or two phases separated "
@@ -186,7 +186,7 @@ PEER_STUB = ["the remote host: a scripted raw peer whose packets are built and p
 
 PROPS["C13"] = dict(
     engine="netsim", level="exploration",
-    quick=dict(runs=32000, workers=16),
+    quick=dict(runs=96000, workers=16),
     thorough=dict(budget_s=600, workers=16),
     rule="one evaluation = one seeded history of 5-60 steps against one real stack: single ICMPv4/ICMPv6 echo requests (identifier/sequence corners and "
          "uniform, payload 0..MTU-28 with odd/even and boundary lengths, IPv4 ones optionally as two out-of-order fragments, one/fd-scatter/two-view "
@@ -243,7 +243,7 @@ PROPS["C06"] = dict(
 
 PROPS["C03"] = dict(
     engine="netsim", level="exploration",
-    quick=dict(runs=32000, workers=16),
+    quick=dict(runs=96000, workers=16),
     thorough=dict(budget_s=600, workers=16),
     rule="one evaluation = one seeded history of 3-25 independent episodes against one real stack with a listener on port 80 (normal or SYN-cookie mode, "
          "IPv4/IPv6): passive opens (peer ISS uniform and wrap-adjacent; SYN options drawn from a grammar of MSS/WS/TS/SACK-permitted/NOP/EOL/unknown "
@@ -287,7 +287,7 @@ PROPS["C04"] = dict(
 
 PROPS["C05"] = dict(
     engine="netsim", level="exploration",
-    quick=dict(runs=32000, workers=16, stall_s=60),
+    quick=dict(runs=64000, workers=16, stall_s=60),
     thorough=dict(budget_s=900, workers=16, stall_s=120),
     rule="one evaluation = one seeded history of 10-120 steps on one connection (Reno or CUBIC, SACK and timestamps on/off, MSS 536/1000/1460) in which "
          "the stack sends flights of 1-200 segments to a scripted immediate-ACK receiver; the simulator decides which emitted segments the receiver "
@@ -337,7 +337,7 @@ PROPS["C14"] = dict(
 
 PROPS["C11"] = dict(
     engine="netsim", level="exploration",
-    quick=dict(runs=32000, workers=16, stall_s=60),
+    quick=dict(runs=48000, workers=16, stall_s=60),
     thorough=dict(budget_s=900, workers=16, stall_s=120),
     rule="one evaluation = one seeded history of 10-120 steps against one real stack with up to six UDP sockets on distinct ports (IPv4 bound to a "
          "specific address / wildcard, dual-stack IPv6 wildcard, IPv4 and IPv6 connected, unbound sender): datagrams of 0..65507 bytes (boundary and "
@@ -360,7 +360,7 @@ PROPS["C11"] = dict(
 
 PROPS["C09"] = dict(
     engine="netsim", level="exploration",
-    quick=dict(runs=48000, workers=16, stall_s=60),
+    quick=dict(runs=96000, workers=16, stall_s=60),
     thorough=dict(budget_s=900, workers=16, stall_s=120),
     rule="one evaluation = one seeded history of 10-80 steps against one real stack with two NICs, three local addresses (two on NIC 1, one on NIC 2), an "
          "unassigned address, optionally promiscuous mode or AddSubnet on NIC 1, three ports and three remote (address, port) pairs: UDP sockets bound to "
@@ -391,7 +391,7 @@ PROPS["C09"] = dict(
 
 PROPS["C12"] = dict(
     engine="netsim", level="exploration",
-    quick=dict(runs=48000, workers=16, stall_s=60),
+    quick=dict(runs=96000, workers=16, stall_s=60),
     thorough=dict(budget_s=900, workers=16, stall_s=120),
     rule="one evaluation = one seeded history of 10-100 steps against one real stack on an Ethernet-like link that requires address resolution (on-link "
          "neighbours plus a gateway for off-link destinations): UDP sends to resolved/unresolved next hops (the write blocks, is retried when its "
@@ -416,7 +416,7 @@ PROPS["C12"] = dict(
 
 PROPS["C07"] = dict(
     engine="netsim", level="exploration",
-    quick=dict(runs=16000, workers=16, stall_s=120),
+    quick=dict(runs=48000, workers=16, stall_s=120),
     thorough=dict(budget_s=900, workers=16, stall_s=120, variants=["", "", "", "fragenum"]),
     rule="one evaluation = one seeded barrage of 50-400 (thorough: up to 2000) frames against a victim stack with a TCP listener, an established TCP "
          "connection holding unread data and unacknowledged data, a bound dual-stack and a connected UDP socket, IPv4+IPv6+ARP on a link that requires "
@@ -443,7 +443,7 @@ PROPS["C07"] = dict(
 
 PROPS["C20"] = dict(
     engine="netsim", level="exploration",
-    quick=dict(runs=3200, workers=16, stall_s=60),
+    quick=dict(runs=4800, workers=16, stall_s=60),
     thorough=dict(budget_s=900, workers=16, stall_s=120),
     rule="one evaluation = one seeded client session against the bundled HTTP/WebSocket server, all inside one bubble over one real stack whose NIC is "
          "the repository's loopback link (inline delivery, 64 KB MTU) or a hairpin link through the simulated wire (MTU 576 or 1500, FIFO, frames handed "
